@@ -5,7 +5,7 @@
    correspondence run, not here. *)
 From Coq Require Import List NArith ZArith Bool Arith Lia.
 From Gen Require Import Consts C06.
-From C06 Require Import Model Spec Util Proofs.
+From C06 Require Import Model Spec Util Proofs Proofs_merge.
 Import ListNotations.
 
 Definition B := gtab_actionBudget.
@@ -56,7 +56,9 @@ Theorem left_to_right_scan_unfold : forall ll gd lk f r seq ok,
   r <> 0 ->
   scan ll gd B lk (S f) r seq ok =
   match step ll gd B lk (length seq - r) seq with
-  | (seq', next, ok') => scan ll gd B lk f (length seq' - next) seq' (ok && ok')
+  | (seq', next, ok') =>
+    if size_cap <? length seq' then (seq', false)
+    else scan ll gd B lk f (length seq' - next) seq' (ok && ok')
   end.
 Proof.
   intros ll gd lk f r seq ok Hr. cbn [scan]. apply Nat.eqb_neq in Hr. rewrite Hr. reflexivity.
@@ -294,12 +296,7 @@ Proof.
   intros Hp. cbn [apply_effect fst s_seq]. apply insert_tracks. assumption.
 Qed.
 
-(* full statement (all sequences): for every q > m0 not removed,
-   nth_error l' (q - count_lt rest q) = nth_error l q.  Proved here: the frame
-   equations, removal, the front part for all sequences; the renumbering
-   behind the merge for all sequences of up to 9 glyphs (drop_at and
-   del_positions are independent of glyph contents). *)
-Theorem positions_follow_merge_partial : forall ms lig s q,
+Theorem positions_follow_merge : forall ms lig s q,
   s_frames (fst (apply_effect (EMerge ms lig) s)) = map (del_positions (tl ms)) (s_frames s) /\
   (In q (tl ms) -> del_positions (tl ms) [q] = []) /\
   (~ In q (tl ms) -> del_positions (tl ms) [q] = [q - count_lt (tl ms) q]) /\
@@ -308,11 +305,27 @@ Theorem positions_follow_merge_partial : forall ms lig s q,
    let l' := s_seq (fst (apply_effect (EMerge ms lig) s)) in
    (forall q, q < hd 0 ms -> nth_error l' q = nth_error (s_seq s) q) /\
    nth_error l' (hd 0 ms) = Some lig) /\
-  forallb merge_tracks_check (seq 0 10) = true.
+  (* behind the ligature: the glyph at old position q (not removed) is now at
+     q - #(removed positions before q); all sequences *)
+  (NoDup (tl ms) -> (forall r, In r (tl ms) -> hd 0 ms < r) -> hd 0 ms < length (s_seq s) ->
+   forall x, hd 0 ms < q -> ~ In q (tl ms) -> nth_error (s_seq s) q = Some x ->
+   nth_error (s_seq (fst (apply_effect (EMerge ms lig) s))) (q - count_lt (tl ms) q) = Some x).
 Proof.
   intros ms lig s q. split; [reflexivity|].
   split; [apply del_positions_removed|]. split; [apply del_positions_kept|].
-  split; [apply count_lt_before|]. split; [|apply merge_tracks_upto9].
-  intros H. cbn [apply_effect fst s_seq]. apply merge_tracks_front. assumption.
+  split; [apply count_lt_before|]. split.
+  - intros H. cbn [apply_effect fst s_seq]. apply merge_tracks_front. assumption.
+  - intros Hnd Hall Hm x Hq Hnot Hn. cbn [apply_effect fst s_seq].
+    apply merge_tracks_behind; assumption.
 Qed.
-Print Assumptions positions_follow_merge_partial.
+Print Assumptions positions_follow_merge.
+
+(* the positions a ligature match returns satisfy the hypotheses above *)
+Theorem matched_positions_distinct_increasing : forall kp preds seq a b qs,
+  match_seq kp preds (slice seq (S a) b) (S a) = Some qs ->
+  NoDup qs /\ (forall r, In r qs -> a < r).
+Proof.
+  intros kp preds seq a b qs H. split.
+  - eapply match_seq_nodup; eassumption.
+  - intros r Hr. pose proof (match_seq_bounds _ _ _ _ _ H r Hr). lia.
+Qed.
